@@ -126,8 +126,8 @@ def _build_world(ctx, n):
 			decoy = G.fasta_bytes(G.make_genome(rng, 1, 100, 300))
 			G.write_file(os.path.join(root, name), G.gz_bytes(decoy) if gz else decoy)     # what a lexical collapse would read
 			path = os.path.join(link, '..', name)
-		elif kind == 'ok' and not gz and ch.flip(0.04, f'fifo{i}'):
-			# a named pipe: size 0, content supplied by a writer when (and only when) somebody opens it for reading
+		elif kind == 'ok' and not gz and len(data) < 60000 and ch.flip(0.04, f'fifo{i}'):
+			# a named pipe: size 0, content put into the pipe when (and only when) somebody opens it for reading
 			form = 'fifo'
 			os.unlink(path)
 			os.mkfifo(path)
